@@ -42,6 +42,24 @@ Theorem superposition : forall (S F : Type) isinst (can : tree S -> bool) (direc
 Proof. exact (@Lemmas.superposition). Qed.
 Print Assumptions superposition.
 
+(* for EVERY tree, without side condition: the result is that sum, or the IndexError raised by an empty
+   collection that is met on the way - never another value, never another error *)
+Theorem superposition_every_tree : forall (S F : Type) isinst (can : tree S -> bool) (direct : tree S -> F) fadd,
+  (forall a b c, fadd a (fadd b c) = fadd (fadd a b) c) ->
+  (forall s, can (Leaf s) = true) -> (forall c l, can (Node c l) = false) ->
+  forall t, single_color isinst can direct fadd t = sum_ne fadd (map (fun s => direct (Leaf s)) (leaves t))
+            \/ single_color isinst can direct fadd t = Err EIndexError.
+Proof. exact (@superposition_general). Qed.
+Print Assumptions superposition_every_tree.
+
+Theorem superposition_whenever_a_field_is_returned : forall (S F : Type) isinst (can : tree S -> bool) (direct : tree S -> F) fadd,
+  (forall a b c, fadd a (fadd b c) = fadd (fadd a b) c) ->
+  (forall s, can (Leaf s) = true) -> (forall c l, can (Node c l) = false) ->
+  forall t f, single_color isinst can direct fadd t = Ok f ->
+              sum_ne fadd (map (fun s => direct (Leaf s)) (leaves t)) = Ok f.
+Proof. exact (@superposition_partial). Qed.
+Print Assumptions superposition_whenever_a_field_is_returned.
+
 (* the instance the property speaks of: complex field vectors at a detector point, added component-wise *)
 Theorem superposition_of_fields : forall (S : Type) isinst (can : tree S -> bool) (direct : tree S -> cvec3 R),
   (forall s, can (Leaf s) = true) -> (forall c l, can (Node c l) = false) ->
